@@ -8,15 +8,20 @@ from facts import VERIF, REPO, BuildFailed, syn_facts, mir_facts
 from synq import Syn, AnchorMissing
 
 EVID = os.path.join(VERIF, "evidence")
+if os.environ.get("VERIF_SELFTEST"):
+    # self-test runs analyse scratch copies: their evidence must not replace the evidence of /repo
+    import tempfile
+    EVID = os.path.join(tempfile.gettempdir(), "prql-selftest-evidence")
 KNOWN = os.path.join(VERIF, "known_findings.json")
 
 
 class Ctx:
     """Lazy access to the fact sets for one run."""
 
-    def __init__(self, tier, seed):
+    def __init__(self, tier, seed, features=None):
         self.tier = tier
         self.seed = seed
+        self.features = features
         self._syn = None
         self._mir = None
         self._std = None
@@ -32,7 +37,7 @@ class Ctx:
     @property
     def mir(self):
         if self._mir is None:
-            self._mir = mir_facts()
+            self._mir = mir_facts(features=self.features)
         return self._mir
 
     @property
